@@ -1,4 +1,5 @@
 """Matching logical objects"""
+import operator as py_operator
 import warnings
 from abc import ABCMeta, abstractmethod
 from collections import namedtuple
@@ -418,8 +419,8 @@ class Condition(MatchCriteria):
         if left_value is None or right_value is None:
             raise ComparisonError(f"Error comparing {left_value} and {right_value}. Neither should be None.")
 
-        # x.__le__(y) style call
-        return getattr(left_value, operator)(right_value)
+        # operator.__le__(x, y) style call, which (unlike x.__le__(y)) also handles mixed int/float operands
+        return getattr(py_operator, operator)(left_value, right_value)
 
 
 class Anded(namedtuple('Anded', ['conditions', 'ors'])):
